@@ -24,8 +24,9 @@ def _scope(tier):
 def shards(tier):
     sc = _scope(tier)
     out = []
-    for base, c in ((33, 10), (64, 20), (33, 2)):
-        # c = 2 with deltas down to -3 would need negative qualities: clip to valid characters
+    for base, c in ((33, 10), (64, 20), (33, 2), (64, 1)):
+        # base 33, c = 2 with deltas down to -3 would need characters below '!': clip to valid characters; with base 64 the
+        # characters below '@' are NEGATIVE qualities (Solexa scale) and stay in (c = 1: values -2..4)
         for first in itertools.product(sc["deltas"], repeat=3 if tier == "thorough" else 2):
             out.append(dict(part="fn", base=base, c=c, first=first, deltas=sc["deltas"], nmax=sc["nmax"]))
         out.append(dict(part="fn_short", base=base, c=c, deltas=sc["deltas"]))
@@ -66,11 +67,12 @@ def run_shard(d):
     part = d["part"]
     if part in ("fn", "fn_short"):
         base, c = d["base"], d["c"]
-        vals = sorted(set(max(0, c + x) for x in d["deltas"]))
+        lo = 33 - base
+        vals = sorted(set(max(lo, c + x) for x in d["deltas"]))
         if part == "fn_short":
             strings = [()] + [(v,) for v in vals] + [(v, w) for v in vals for w in vals]
         else:
-            f0 = tuple(max(0, c + x) for x in d["first"])
+            f0 = tuple(max(lo, c + x) for x in d["first"])
             strings = (f0 + rest for L in range(0, d["nmax"] - len(f0) + 1) for rest in itertools.product(vals, repeat=L))
         trimmers = {p: QualityTrimmer(p[0], p[1], base) for p in _pairs(c)}
         for q in strings:
@@ -143,7 +145,7 @@ def run_shard(d):
     elif part == "printable":
         # every printable quality character, both bases: single characters and pairs against all cutoffs 0..45
         for base in (33, 64):
-            chars = [chr(x) for x in range(base, 127)]
+            chars = [chr(x) for x in range(33, 127)]  # base 64: the characters below '@' are negative qualities
             for c in range(0, 46, 3):
                 for a in chars:
                     for b in (chars[0], chars[len(chars) // 2], chars[-1], a):
